@@ -174,6 +174,158 @@ ZoneClause(m, ev) ==
        ELSE IF ~Near3(ev.diff.len, Zero3, IF ev.p.frac \/ ev.q.frac THEN 2 ELSE 0) \/ ev.diff.y # 0 \/ ev.diff.mo # 0 THEN "difference-not-zero"
        ELSE "ok"
 
+\* C11: all laws of duration arithmetic on one triple (a, b, c) and multiplier n; every side is a recorded result
+DurLawsClause(m, ev) ==
+  LET a == ev.a  b == ev.b  c == ev.c  n == ev.n
+      fr == a.frac \/ b.frac \/ c.frac
+      Same(x, e) == IF fr THEN DurNear(x, e) ELSE DurSame(x, e)
+      sum == DurAddFn(a, b)
+      cv == DurCmpVector(m, a, b)
+      eqab == DurEq(a, b)
+  IN IF ~Same(ev.ab, sum) THEN "a+b"
+     ELSE IF ~Same(ev.ba, sum) THEN "b+a"
+     ELSE IF ~fr /\ ~ev.comm THEN "a+b==b+a"
+     ELSE IF ~Same(ev.l, DurAddFn(sum, c)) THEN "(a+b)+c"
+     ELSE IF ~Same(ev.r, DurAddFn(sum, c)) THEN "a+(b+c)"
+     ELSE IF ~fr /\ ~ev.assoc THEN "(a+b)+c==a+(b+c)"
+     ELSE IF ~Same(ev.a0, a) \/ (~fr /\ ~ev.ident) THEN "identity"
+     ELSE IF ~(ev.inv.y = 0 /\ ev.inv.mo = 0 /\ Near3(ev.inv.len, Zero3, IF fr THEN 2 ELSE 0)) THEN "d+(-1*d)-not-empty"
+     ELSE IF ~fr /\ ~ev.invempty THEN "d+(-1*d)-truthy"
+     ELSE IF ~Same(ev.na, DurMulFn(a, n)) THEN "n*d"
+     ELSE IF ~Same(ev.an, DurMulFn(a, n)) THEN "d*n"
+     ELSE IF ~Same(ev.nsum, DurMulFn(a, n)) THEN "n-fold-sum"
+     ELSE IF ~fr /\ ~ev.muleq THEN "n*d==n-fold-sum"
+     ELSE IF ~Same(ev.amb, DurAddFn(a, DurMulFn(b, -1))) THEN "a-b"
+     ELSE IF ~Same(ev.apnb, DurAddFn(a, DurMulFn(b, -1))) THEN "a+(-1*b)"
+     ELSE IF ~fr /\ ~ev.subeq THEN "a-b==a+(-1*b)"
+     ELSE IF ~fr /\ ev.cmp[1] # eqab THEN "=="
+     ELSE IF ~fr /\ ev.cmp[2] # ~eqab THEN "!="
+     ELSE IF ~fr /\ eqab /\ ev.ha # ev.hb THEN "equal-but-hash-differs"
+     ELSE IF ~fr /\ ev.cmp[3] # cv[1] THEN "<"
+     ELSE IF ~fr /\ ev.cmp[4] # cv[2] THEN "<="
+     ELSE IF ~fr /\ ev.cmp[5] # cv[3] THEN ">"
+     ELSE IF ~fr /\ ev.cmp[6] # cv[4] THEN ">="
+     ELSE IF ev.cmp[3] /\ ev.cmp[5] THEN "<-and->"
+     ELSE IF ev.cmp[4] # (ev.cmp[3] \/ ~ev.cmp[5]) \/ ev.cmp[6] # (ev.cmp[5] \/ ~ev.cmp[3]) THEN "<=/>=-inconsistent"
+     ELSE IF ~Same(ev.tod, a) \/ ev.tod.wk THEN "to_days"
+     ELSE "ok"
+
+\* ---------------------------------------------------------------------- C12 / C13 / C14: recurrences
+\* inp = [fmt, n (0 = unbounded), a (anchor: the given start, or the given end for notation 4), s (second point,
+\*        notation 1), d (interval, notations 3 and 4), r (projection of the constructed object)]
+IterDur(m, inp) ==
+  IF inp.fmt = 1 THEN [y |-> 0, mo |-> 0, len |-> Minus3(Inst(m, inp.s), Inst(m, inp.a)), frac |-> inp.a.frac \/ inp.s.frac]
+  ELSE inp.d
+Single(m, inp)  == inp.n = 1 \/ DurIsZero(IterDur(m, inp))
+Forward(inp)    == inp.fmt \in {1, 3}
+Bounded(inp)    == inp.n > 0
+TPMatch(m, e, q) ==
+  IF e.frac \/ q.frac THEN e.rep = q.rep /\ SameZone(e, q) /\ Near3(Inst(m, e), Inst(m, q), 2)
+  ELSE SameTP(e, q)
+
+IterNextClause(m, ev) ==
+  LET inp == it.inp  k == it.k  d == IterDur(m, inp)  q == ev.q IN
+  IF ~it.open THEN "no-open-iterator"
+  ELSE IF ~ValidTP(m, q) THEN "yielded-invalid-point"
+  ELSE IF Single(m, inp) THEN
+       (IF k > 0 THEN "more-than-the-anchor" ELSE IF ~TPMatch(m, inp.a, q) THEN "anchor-not-yielded" ELSE "ok")
+  ELSE IF Bounded(inp) /\ k >= inp.n THEN "more-than-n-points"
+  ELSE IF Forward(inp) THEN
+       (IF k = 0 THEN (IF TPMatch(m, inp.a, q) THEN "ok" ELSE "first-point-not-start")
+        ELSE IF ~TPMatch(m, AddDurTP(m, it.last, d), q) THEN "next-not-previous-plus-interval"
+        ELSE IF ~Lt3(Inst(m, it.last), Inst(m, q)) THEN "not-increasing"
+        ELSE "ok")
+  ELSE IF ~Bounded(inp) THEN
+       (IF k = 0 THEN (IF TPMatch(m, inp.a, q) THEN "ok" ELSE "first-point-not-end")
+        ELSE IF ~TPMatch(m, AddDurTP(m, it.last, DurNeg(d)), q) THEN "next-not-previous-minus-interval"
+        ELSE IF ~Lt3(Inst(m, q), Inst(m, it.last)) THEN "not-decreasing"
+        ELSE "ok")
+  \* bounded duration/end: increasing points ending at the given end; consecutive points one interval apart,
+  \* read either as next = previous + d or as previous = next - d (the statement allows "plus or minus")
+  ELSE (IF k = 0 THEN "ok"
+        ELSE IF ~(TPMatch(m, AddDurTP(m, it.last, d), q) \/ TPMatch(m, AddDurTP(m, q, DurNeg(d)), it.last)) THEN "consecutive-points-not-one-interval-apart"
+        ELSE IF ~Lt3(Inst(m, it.last), Inst(m, q)) THEN "not-increasing"
+        ELSE "ok")
+
+IterStopClause(m, ev) ==
+  LET inp == it.inp IN
+  IF ~it.open THEN "no-open-iterator"
+  ELSE IF Single(m, inp) THEN (IF it.k = 1 THEN "ok" ELSE "anchor-not-yielded")
+  ELSE IF ~Bounded(inp) THEN "unbounded-series-ended"
+  ELSE IF it.k # inp.n THEN "count-not-n"
+  ELSE IF ~Forward(inp) /\ ~(Inst(m, it.last) = Inst(m, inp.a) /\ it.last.rep = inp.a.rep) THEN "end-anchor-not-included"
+  ELSE "ok"
+
+\* C12: the three notations of one exact finite series: equal, and identical iteration
+NotationsClause(m, ev) ==
+  IF ~ev.ok THEN "raised-" \o ev.cls
+  ELSE IF ~(ev.eq13 /\ ev.eq34 /\ ev.eq14) THEN "notations-not-equal"
+  ELSE IF ~(Len(ev.p1) = Len(ev.p3) /\ Len(ev.p3) = Len(ev.p4)) THEN "notations-iterate-different-counts"
+  ELSE IF \E k \in 1..Len(ev.p1) : ~(Inst(m, ev.p1[k]) = Inst(m, ev.p3[k]) /\ Inst(m, ev.p3[k]) = Inst(m, ev.p4[k])) THEN "notations-iterate-differently"
+  ELSE IF ~(ev.h1 = ev.h3 /\ ev.h3 = ev.h4) THEN "equal-but-hash-differs"
+  ELSE "ok"
+
+\* C13: queries against the series the last exhausted (or 12-point) iteration yielded: ser
+SerIndex(m, p) == IF \E k \in 1..Len(ser) : Inst(m, ser[k]) = Inst(m, p)
+                  THEN CHOOSE k \in 1..Len(ser) : Inst(m, ser[k]) = Inst(m, p) ELSE 0
+QueryClause(m, ev) ==
+  LET inp == it.inp  d == IterDur(m, inp)  n == Len(ser) IN
+  IF ~ev.ok THEN "raised-" \o ev.cls
+  ELSE IF ev.q = "is_valid" THEN
+       (IF ev.res # (SerIndex(m, ev.p) > 0) THEN "get_is_valid" ELSE "ok")
+  ELSE IF ev.q = "getitem" THEN
+       (IF ev.i < n THEN (IF ev.found /\ TPMatch(m, ser[ev.i + 1], ev.r) THEN "ok" ELSE "getitem")
+        ELSE IF ev.found /\ it.complete THEN "getitem-beyond-series" ELSE "ok")
+  ELSE IF ev.q \in {"next", "prev"} THEN
+       LET k == SerIndex(m, ev.p)
+           fwd == (ev.q = "next") = it.forward     \* the query moves in the direction of iteration
+           j == IF fwd THEN k + 1 ELSE k - 1
+       IN IF k = 0 THEN "query-on-non-member"
+          ELSE IF Single(m, inp) THEN (IF ev.found THEN "neighbour-of-single-point" ELSE "ok")
+          ELSE IF j >= 1 /\ j <= n THEN
+                 (IF ev.found /\ Inst(m, ev.r) = Inst(m, ser[j]) /\ ev.r.rep = ev.p.rep THEN "ok" ELSE "neighbour-" \o ev.q)
+          ELSE IF (j = 0 \/ it.complete) THEN (IF ev.found THEN "neighbour-beyond-end-" \o ev.q ELSE "ok")
+          ELSE "ok"
+  ELSE IF ev.q = "first_after" THEN
+       LET later == {k \in 1..n : Lt3(Inst(m, ev.p), Inst(m, ser[k]))} IN
+       IF later = {} THEN (IF it.complete THEN (IF ev.found THEN "first_after-beyond-series" ELSE "ok") ELSE "ok")
+       ELSE LET k == CHOOSE j \in later : \A i \in later : Le3(Inst(m, ser[j]), Inst(m, ser[i])) IN
+            IF ev.found /\ Inst(m, ev.r) = Inst(m, ser[k]) THEN "ok" ELSE "first_after"
+  ELSE "unknown-query"
+
+\* C14: shifting.  ev: inp (as above), d (shift), r2 (projection of the result), pts2 (its iteration), eqback ((r+d)-d == r)
+ShiftClause(m, ev) ==
+  LET inp == it.inp  sh == ev.d  r2 == ev.r2  iv == IterDur(m, inp) IN
+  IF ~ev.ok THEN "raised-" \o ev.cls
+  ELSE IF r2.n # ev.r.n THEN "repetitions-changed"
+  ELSE IF ev.r.hasDur # r2.hasDur \/ (r2.hasDur /\ ~DurSame(r2.dur, ev.r.dur)) THEN "interval-changed"
+  ELSE IF Forward(inp) /\ ~(r2.hasStart /\ TPMatch(m, AddDurTP(m, inp.a, sh), r2.start)) THEN "start-not-moved-by-d"
+  ELSE IF ~Forward(inp) /\ ~(r2.hasEnd /\ TPMatch(m, AddDurTP(m, inp.a, sh), r2.end)) THEN "end-not-moved-by-d"
+  ELSE IF DurExact(iv) /\ DurExact(sh) /\ Len(ev.pts2) # Len(ser) THEN "shifted-series-length"
+  ELSE IF DurExact(iv) /\ DurExact(sh) /\ \E k \in 1..Len(ser) :
+            ~Near3(Inst(m, ev.pts2[k]), Plus3(Inst(m, ser[k]), sh.len), IF sh.frac \/ ser[k].frac THEN 2 ELSE 0) THEN "point-not-moved-by-d"
+  ELSE IF DurExact(sh) /\ ~sh.frac /\ ~ev.eqback THEN "(r+d)-d==r"
+  ELSE "ok"
+
+\* C14: equality / hash of two recurrences built from descriptions that differ in `diff` ("none" | "respell" | a component)
+RecEqClause(m, ev) ==
+  IF ~ev.ok THEN "raised-" \o ev.cls
+  ELSE IF ev.diff \in {"n", "start", "end", "interval"} /\ (ev.eq \/ ~ev.ne) THEN "unequal-components-compare-equal"
+  ELSE IF ev.diff = "none" /\ (~ev.eq \/ ev.ne) THEN "same-components-compare-unequal"
+  ELSE IF ev.diff = "respell" /\ ev.exact /\ ~ev.eq THEN "respelled-exact-recurrence-unequal"
+  ELSE IF ev.eq /\ ev.h1 # ev.h2 THEN "equal-but-hash-differs"
+  ELSE IF ev.eq /\ (ev.exact \/ ev.diff = "none") /\
+          (Len(ev.p1) # Len(ev.p2) \/ \E k \in 1..Len(ev.p1) : Inst(m, ev.p1[k]) # Inst(m, ev.p2[k])) THEN "equal-but-iterate-differently"
+  ELSE "ok"
+
+\* C14: text round trip  parse(str(r)) == r with the same points
+RecTextClause(m, ev) ==
+  IF ~ev.ok THEN "raised-" \o ev.cls
+  ELSE IF ~ev.eq THEN "parse(str(r))#r"
+  ELSE IF ~ev.strfix THEN "str-not-fixpoint"
+  ELSE IF Len(ev.p1) # Len(ev.p2) \/ \E k \in 1..Len(ev.p1) : ~SameTP(ev.p1[k], ev.p2[k]) THEN "reparsed-points-differ"
+  ELSE "ok"
+
 \* ---------------------------------------------------------------------- the step relation
 Clause(ev) ==
   CASE ev.op = "Begin"    -> "ok"
@@ -188,6 +340,16 @@ Clause(ev) ==
     [] ev.op = "Ident"    -> IdentClause(mode, ev)
     [] ev.op = "RoundTrip" -> RoundTripClause(mode, ev)
     [] ev.op = "Zone"     -> ZoneClause(mode, ev)
+    [] ev.op = "DurLaws"  -> DurLawsClause(mode, ev)
+    [] ev.op = "IterOpen" -> "ok"
+    [] ev.op = "IterNext" -> IterNextClause(mode, ev)
+    [] ev.op = "IterStop" -> IterStopClause(mode, ev)
+    [] ev.op = "IterAbandon" -> "ok"
+    [] ev.op = "Notations" -> NotationsClause(mode, ev)
+    [] ev.op = "Query"    -> QueryClause(mode, ev)
+    [] ev.op = "Shift"    -> ShiftClause(mode, ev)
+    [] ev.op = "RecEq"    -> RecEqClause(mode, ev)
+    [] ev.op = "RecText"  -> RecTextClause(mode, ev)
     [] ev.op = "Raised"   -> "raised-" \o ev.cls
     [] OTHER -> "unknown-event-kind"
 
@@ -198,7 +360,16 @@ Step ==
        /\ rej' = RejInc(c)
        /\ mode' = IF ev.op = "Begin" THEN ev.cm
                   ELSE IF ev.op = "SetMode" THEN Meaning(ev.sp) ELSE mode
-       /\ dig' = dig /\ it' = it /\ ser' = ser /\ zone' = zone
+       /\ it' = CASE ev.op = "Begin" -> NoIt
+                   [] ev.op = "IterOpen" -> [open |-> TRUE, inp |-> ev.inp, k |-> 0, last |-> ev.inp.a,
+                                             forward |-> ev.forward, complete |-> FALSE]
+                   [] ev.op = "IterNext" /\ it.open -> [it EXCEPT !.k = it.k + 1, !.last = ev.q]
+                   [] ev.op = "IterStop" /\ it.open -> [it EXCEPT !.complete = TRUE]
+                   [] OTHER -> it
+       /\ ser' = CASE ev.op \in {"Begin", "IterOpen"} -> <<>>
+                    [] ev.op = "IterNext" -> Append(ser, ev.q)
+                    [] OTHER -> ser
+       /\ dig' = dig /\ zone' = zone
   /\ l' = l + 1
 
 Finish ==
